@@ -192,7 +192,7 @@ def run(case):
         for nb in neighbours(sp):
             try:
                 w, _ = build(nb, [[0, 0]] * nslots(nb))
-                eqs.append({"sp": nb, "eq": bool(vs == vspace(w)), "eq_rev": bool(vspace(w) == vs)})
+                eqs.append({"sp": nb, "eq": bool(vs == vspace(w)), "eq_rev": bool(vspace(w) == vs), "ne": bool(vs != vspace(w))})
             except Exception as ex:     # noqa
                 pass
         o["eqs"] = eqs
